@@ -1443,3 +1443,476 @@ Qed.
 Theorem parse_render_plain : forall d l,
   plain_fields d = true -> wf_doc d -> wf_layout d l -> parse (render d l) = Ok (flatten d, bom l).
 Proof. intros d l H. apply parse_render_noparam. apply plain_noparam. exact H. Qed.
+
+(* ------------------------------------------------------------------ parameters: [[name] value ]  [[!name] k = v .. ] *)
+Lemma not33 (n : N) : n <> 33%N -> match Some n with Some 33%N => true | _ => false end = false.
+Proof.
+  intros H. destruct n as [|p]; [reflexivity|]. repeat (destruct p as [p|p|]; try reflexivity). congruence.
+Qed.
+
+Lemma wf_pname_facts name : wf_pname name = true ->
+  exists n0 name', name = n0 :: name' /\ n0 <> 33%N /\ forallb (fun b => negb (is_boundary b)) name = true.
+Proof.
+  unfold wf_pname. destruct name as [|n0 name']; [discriminate|]. intros H. exists n0, name'. split; [reflexivity|]. split; [|exact H].
+  cbn [forallb] in H. andb_split. intros ->. discriminate.
+Qed.
+
+(* the part of parse_parameter_definition up to and including the closing bracket of the name *)
+Lemma parse_param_name u name rest p st t :
+  wf_pname name = true ->
+  parse_param (pname_bytes u name ++ rest) p st t false =
+  let t1 := tpush t (param_tok u name) in
+  match skip_ws_t rest with
+  | None => Fail E_TextErr
+  | Some d =>
+      match split_at_scalar d with
+      | Ok (kv, d) =>
+          match skip_ws_t d with
+          | None => Fail E_TextErr
+          | Some d =>
+              match d with
+              | 93%N :: d' => Next (mkps d' SKey false p (tpush t1 (TUnquoted kv)))
+              | _ => Next (mkps d SKvs false (length t1) (tpush (tpush t1 (TObject p false)) (TUnquoted kv)))
+              end
+          end
+      | _ => Crash 3011%N
+      end
+  end.
+Proof.
+  intros Hn. destruct (wf_pname_facts name Hn) as (n0 & name' & -> & Hn0 & Hall).
+  assert (Hsplit : split_at_scalar ((n0 :: name') ++ 93%N :: rest) = Ok (n0 :: name', 93%N :: rest)).
+  { apply split_at_scalar_word; [discriminate | exact Hall | reflexivity]. }
+  unfold parse_param, pname_bytes. destruct u.
+  - cbn [app nth_error]. cbn [length Nat.ltb Nat.leb skipn]. rewrite <- app_assoc. cbn [app] in *. rewrite Hsplit. reflexivity.
+  - cbn [app nth_error]. rewrite (not33 n0 Hn0). cbn [length Nat.ltb Nat.leb skipn]. rewrite <- app_assoc. cbn [app] in *.
+    rewrite Hsplit. reflexivity.
+Qed.
+
+Lemma wf_unq_word s : wf_unq s = true ->
+  exists c r, s = c :: r /\ scalar_start c = true /\ forallb (fun b => negb (is_boundary b)) s = true.
+Proof.
+  intros H. destruct (scalar_bytes_hd Unq s H) as (c & r & E & Hc). exists c, r. cbn in E. split; [exact E|]. split; [exact Hc|].
+  subst s. unfold wf_unq in H. andb_split. assumption.
+Qed.
+
+Lemma parse_param_value u name g1 s g2 rest p st t :
+  wf_pname name = true -> wf_unq s = true -> gap_ok g1 -> gap_ok g2 -> starts_boundary (g2 ++ 93%N :: rest) ->
+  parse_param (pname_bytes u name ++ g1 ++ s ++ g2 ++ 93%N :: rest) p st t false =
+  Next (mkps rest SKey false p (t ++ [param_tok u name; TUnquoted s])).
+Proof.
+  intros Hn Hs Hg1 Hg2 Hb. rewrite parse_param_name by exact Hn. cbv zeta.
+  destruct (wf_unq_word s Hs) as (c & r & -> & Hc & Hall).
+  cbn [app]. rewrite skip_ws_gap_sig; [|exact Hg1 | apply scalar_start_facts in Hc; tauto].
+  change (c :: r ++ g2 ++ 93%N :: rest) with ((c :: r) ++ g2 ++ 93%N :: rest).
+  rewrite split_at_scalar_word; [|discriminate | exact Hall | exact Hb].
+  rewrite skip_ws_gap_sig by (assumption || reflexivity). unfold tpush. rewrite <- app_assoc. reflexivity.
+Qed.
+
+Lemma parse_param_object u name g1 s rest c2 r2 p st t :
+  wf_pname name = true -> wf_unq s = true -> gap_ok g1 -> starts_boundary rest ->
+  skip_ws_t rest = Some (c2 :: r2) -> c2 <> 93%N ->
+  parse_param (pname_bytes u name ++ g1 ++ s ++ rest) p st t false =
+  Next (mkps (c2 :: r2) SKvs false (S (length t)) (t ++ [param_tok u name; TObject p false; TUnquoted s])).
+Proof.
+  intros Hn Hs Hg1 Hb Hsk Hc2. rewrite parse_param_name by exact Hn. cbv zeta.
+  destruct (wf_unq_word s Hs) as (c & r & -> & Hc & Hall).
+  cbn [app]. rewrite skip_ws_gap_sig; [|exact Hg1 | apply scalar_start_facts in Hc; tauto].
+  change (c :: r ++ rest) with ((c :: r) ++ rest).
+  rewrite split_at_scalar_word; [|discriminate | exact Hall | exact Hb].
+  rewrite Hsk. unfold tpush. rewrite length_snoc, <- !app_assoc. cbn [app].
+  destruct c2 as [|pc]; [reflexivity|]. repeat (destruct pc as [pc|pc|]; try reflexivity). congruence.
+Qed.
+
+Lemma parse_param_initial d p st T x :
+  parse_param d p st (T ++ [x]) true = parse_param d (length T) st (T ++ [TObject p false]) false.
+Proof. unfold parse_param. rewrite length_snoc, tset_app. reflexivity. Qed.
+
+Lemma step_key_param g rest m p t :
+  gap_ok g ->
+  step (mkps (g ++ 91%N :: rest) SKey m p t) = keep_mixed m (parse_param (91%N :: rest) p SKey t false).
+Proof.
+  intros Hg. unfold step. cbn [pdata pst_ pmixed pparent ptape].
+  rewrite skip_ws_gap_sig by (assumption || reflexivity). reflexivity.
+Qed.
+
+Lemma step_open_param g rest p T x :
+  gap_ok g ->
+  step (mkps (g ++ 91%N :: rest) SOpen false p (T ++ [x])) =
+  keep_mixed false (parse_param (91%N :: rest) (length T) SOpen (T ++ [TObject p false]) false).
+Proof.
+  intros Hg. unfold step. cbn [pdata pst_ pmixed pparent ptape].
+  rewrite skip_ws_gap_sig by (assumption || reflexivity). cbn [beq N.eqb Pos.eqb]. rewrite parse_param_initial. reflexivity.
+Qed.
+
+(* `]` closes a parameter object exactly like `}` closes an object *)
+Lemma step_key_close93 g rest m T gp U st' m' :
+  gap_ok g -> T <> [] -> restore (T ++ TObject gp false :: U) gp = (st', m') ->
+  step (mkps (g ++ 93%N :: rest) SKey m (length T) (T ++ TObject gp false :: U)) =
+  Next (mkps rest st' m' gp (T ++ TObject (length T + 1 + length U) m :: U ++ [TEnd (length T)])).
+Proof.
+  intros Hg HT Hr. unfold step. cbn [pdata pst_ pmixed pparent ptape].
+  rewrite skip_ws_gap_sig by (assumption || reflexivity).
+  cbn [beq N.eqb Pos.eqb orb]. unfold slot, tget. rewrite nth_error_mid, Hr.
+  assert (length T =? 0 = false) as -> by (apply Nat.eqb_neq; destruct T; [congruence | discriminate]).
+  cbn [andb]. unfold tpush. rewrite <- app_assoc. cbn [app]. rewrite tset_app.
+  rewrite !app_length. cbn [length].
+  replace (length T + S (length U)) with (length T + 1 + length U) by lia. reflexivity.
+Qed.
+
+Lemma reach_key_close93 g rest m T gp U st' m' :
+  gap_ok g -> T <> [] -> restore (T ++ TObject gp false :: U) gp = (st', m') ->
+  reaches (mkps (g ++ 93%N :: rest) SKey m (length T) (T ++ TObject gp false :: U))
+          (mkps rest st' m' gp (T ++ TObject (length T + 1 + length U) m :: U ++ [TEnd (length T)])).
+Proof.
+  intros Hg HT Hr. eapply reaches_step; [apply step_key_close93; eassumption | apply same_upto_ws_refl |].
+  meas_tac. pose proof (phi_le1 st'). lia.
+Qed.
+
+Lemma pname_len u name : 4 <= length (pname_bytes u name) \/ name = [].
+Proof. destruct name; [right; reflexivity|]. left. unfold pname_bytes. destruct u; cbn [app length]; rewrite app_length; cbn; lia. Qed.
+
+Lemma pname_head u name : exists r, pname_bytes u name = 91%N :: r.
+Proof. eexists. reflexivity. Qed.
+
+(* [[name] value ]  — the machine state s0 is the one whose step enters parse_parameter_definition *)
+Lemma PV_run name u s : wf_pname name = true -> wf_unq s = true ->
+  forall g i more T0 p0 st s0, (forall j, gap_ok (g j)) -> sep_ok g (toks_field (ParamV name u s) ++ more) i ->
+  step s0 = keep_mixed false (parse_param (pname_bytes u name ++ render_toks g (((s, true) : rtok) :: rbracket :: more) (S i)) p0 st T0 false) ->
+  2 * length (pname_bytes u name ++ render_toks g (((s, true) : rtok) :: rbracket :: more) (S i)) <= meas s0 ->
+  reaches s0 (mkps (render_toks g more (i + 3)) SKey false p0 (T0 ++ [param_tok u name; TUnquoted s])).
+Proof.
+  intros Hn Hs g i more T0 p0 st s0 Hg Hsep Hstep Hm.
+  cbn [toks_field app] in Hsep. cbn [sep_ok] in Hsep. destruct Hsep as (_ & Hs2 & _).
+  rewrite !render_toks_cons in *. cbn [fst rbracket app] in *.
+  rewrite parse_param_value in Hstep; [| assumption | assumption | apply Hg | apply Hg | apply Hs2; reflexivity].
+  cbn [keep_mixed pdata pst_ pparent ptape] in Hstep.
+  eapply reaches_step; [exact Hstep | replace (i + 3) with (S (S (S i))) by lia; apply same_upto_ws_refl |].
+  replace (i + 3) with (S (S (S i))) by lia.
+  destruct (pname_len u name) as [Hl| ->]; [|discriminate].
+  revert Hm. meas_tac.
+Qed.
+
+Lemma step_key_pname g u name rest m p t :
+  gap_ok g ->
+  step (mkps (g ++ pname_bytes u name ++ rest) SKey m p t) = keep_mixed m (parse_param (pname_bytes u name ++ rest) p SKey t false).
+Proof. intros Hg. unfold pname_bytes. cbn [app]. apply step_key_param. exact Hg. Qed.
+
+Lemma step_open_pname g u name rest p T x :
+  gap_ok g ->
+  step (mkps (g ++ pname_bytes u name ++ rest) SOpen false p (T ++ [x])) =
+  keep_mixed false (parse_param (pname_bytes u name ++ rest) (length T) SOpen (T ++ [TObject p false]) false).
+Proof. intros Hg. unfold pname_bytes. cbn [app]. apply step_open_param. exact Hg. Qed.
+
+Lemma F1_paramV name u s : wf_pname name = true -> wf_unq s = true -> F1lemma (ParamV name u s).
+Proof.
+  intros Hn Hs g i more T p Hg Hsep Hctx.
+  eapply reaches_eq.
+  { apply (PV_run name u s Hn Hs g i more T p SKey _ Hg Hsep).
+    - cbn [toks_field app]. rewrite render_toks_cons. cbn [fst]. apply step_key_pname. apply Hg.
+    - unfold meas. cbn [pdata pst_ phi toks_field app]. rewrite (render_toks_cons g _ _ i). cbn [fst].
+      rewrite !app_length. lia. }
+  cbn [toks_field length flat_field]. reflexivity.
+Qed.
+
+Lemma ctx_ok_cons c T0 P X p : ctx_ok c (T0 ++ [P]) p -> ctx_ok c (T0 ++ P :: X) p.
+Proof. intros H. replace (T0 ++ P :: X) with ((T0 ++ [P]) ++ X) by (rewrite <- app_assoc; reflexivity). apply ctx_ok_app. exact H. Qed.
+
+Lemma reach_key_close93_param g rest m T0 P gp U st' m' :
+  gap_ok g -> restore (T0 ++ P :: TObject gp false :: U) gp = (st', m') ->
+  reaches (mkps (g ++ 93%N :: rest) SKey m (S (length T0)) (T0 ++ P :: TObject gp false :: U))
+          (mkps rest st' m' gp (T0 ++ P :: TObject (S (length T0) + 1 + length U) m :: U ++ [TEnd (S (length T0))])).
+Proof.
+  intros Hg Hr.
+  assert (HT : T0 ++ [P] <> []) by (intros E; apply app_eq_nil in E; destruct E; discriminate).
+  pose proof (reach_key_close93 g rest m (T0 ++ [P]) gp U st' m' Hg HT) as H.
+  rewrite length_snoc in H. rewrite <- !app_assoc in H. cbn [app] in H. apply H. exact Hr.
+Qed.
+
+Lemma nth_error_param2 {A} (T0 : list A) P x y X : nth_error ((T0 ++ [P; x; y]) ++ X) (S (length T0)) = Some x.
+Proof.
+  replace (T0 ++ [P; x; y]) with ((T0 ++ [P]) ++ x :: [y]) by (rewrite <- app_assoc; reflexivity).
+  rewrite <- (length_snoc T0 P). apply nth_error_mid2.
+Qed.
+Lemma nth_error_param1 {A} (T0 : list A) P x y : nth_error (T0 ++ [P; x; y]) (S (length T0)) = Some x.
+Proof. rewrite <- (app_nil_r (T0 ++ [P; x; y])). apply nth_error_param2. Qed.
+
+(* [[name] key op value .. ] *)
+Lemma PO_run name u key o v fs :
+  wf_pname name = true -> wf_unq key = true -> FRlemma (Some o) v -> Flemma fs ->
+  forall g i more T0 p0 st s0, (forall j, gap_ok (g j)) ->
+  sep_ok g (toks_field (ParamO name u (FCons (Field Unq key (Some o) v) fs)) ++ more) i ->
+  ctx_ok CObj (T0 ++ [param_tok u name]) p0 ->
+  step s0 = keep_mixed false (parse_param (pname_bytes u name ++
+              render_toks g (toks_fields (FCons (Field Unq key (Some o) v) fs) ++ rbracket :: more) (S i)) p0 st T0 false) ->
+  2 * length (pname_bytes u name ++
+              render_toks g (toks_fields (FCons (Field Unq key (Some o) v) fs) ++ rbracket :: more) (S i)) <= meas s0 ->
+  reaches s0 (mkps (render_toks g more (i + length (toks_field (ParamO name u (FCons (Field Unq key (Some o) v) fs)))))
+                   SKey false p0 (T0 ++ flat_field false (length T0) (ParamO name u (FCons (Field Unq key (Some o) v) fs)))).
+Proof.
+  intros Hn Hkey HFR HF g i more T0 p0 st s0 Hg Hsep Hctx Hstep Hm.
+  cbn [toks_field toks_fields app] in Hsep, Hstep, Hm.
+  rewrite <- ?app_assoc in Hsep, Hstep, Hm. cbn [app] in Hsep, Hstep, Hm. rewrite <- ?app_assoc in Hsep, Hstep, Hm.
+  cbn [sep_ok] in Hsep. destruct Hsep as (_ & Hs & Hsep).
+  rewrite render_toks_cons in Hstep, Hm. cbn [fst stok scalar_bytes] in Hstep, Hm.
+  assert (Hb : starts_boundary (render_toks g (optok (Some o) ++ toks_value v ++ toks_fields fs ++ rbracket :: more) (S (S i))))
+    by (apply Hs; reflexivity).
+  assert (exists c2 r2, op_symbol o = c2 :: r2 /\ significant c2 = true /\ c2 <> 93%N) as (c2 & r2 & Eo & Hsig & H93)
+    by (destruct o; eexists _, _; repeat split; discriminate).
+  assert (Hsk : skip_ws_t (render_toks g (optok (Some o) ++ toks_value v ++ toks_fields fs ++ rbracket :: more) (S (S i))) =
+                Some (c2 :: r2 ++ render_toks g (toks_value v ++ toks_fields fs ++ rbracket :: more) (S (S (S i))))).
+  { cbn [optok app render_toks fst]. rewrite Eo. cbn [app]. apply skip_ws_gap_sig; [apply Hg | exact Hsig]. }
+  rewrite (parse_param_object u name (g (S i)) key _ c2 _ p0 st T0 Hn Hkey (Hg _) Hb Hsk H93) in Hstep.
+  cbn [keep_mixed pdata pst_ pparent ptape] in Hstep.
+  eapply reaches_trans.
+  { eapply (reaches_step s0 _ (mkps (render_toks g (optok (Some o) ++ toks_value v ++ toks_fields fs ++ rbracket :: more) (S (S i)))
+                                 SKvs false (S (length T0)) (T0 ++ [param_tok u name; TObject p0 false; TUnquoted key]))); [exact Hstep | |].
+    - repeat split. cbn [pdata]. apply skip_ws_idem. exact Hsk.
+    - destruct (pname_len u name) as [Hl| ->]; [|discriminate]. revert Hm. meas_tac. }
+  eapply reaches_trans.
+  { apply (HFR g (S (S i)) (toks_fields fs ++ rbracket :: more) _ (S (length T0)) Hg Hsep).
+    right. exists p0. apply nth_error_param1. }
+  assert (Hsep2 : sep_ok g (toks_fields fs ++ rbracket :: more) (S (S i) + length (optok (Some o)) + length (toks_value v))).
+  { apply sep_ok_app in Hsep. rewrite app_length, Nat.add_assoc in Hsep. exact Hsep. }
+  clear Hsep. rename Hsep2 into Hsep.
+  eapply reaches_trans.
+  { apply (HF g _ (rbracket :: more) _ (S (length T0)) Hg Hsep).
+    right. right. exists p0. apply nth_error_param2. }
+  apply sep_ok_app in Hsep. rewrite render_toks_cons. cbn [fst rbracket app].
+  eapply reaches_eq.
+  { rewrite <- !app_assoc. cbn [app].
+    apply (reach_key_close93_param (g _) _ false T0 _ p0 _ SKey false (Hg _)).
+    apply (ctx_ok_restore CObj).
+    apply ctx_ok_cons. exact Hctx. }
+  cbn [toks_field toks_fields toks_field flat_field flat_fields flat_field length].
+  rewrite !app_length. cbn [length app]. rewrite !app_length. cbn [length].
+  tape_eq.
+Qed.
+
+Lemma param_tok_not_cont u name : is_cont_tok (param_tok u name) = false.
+Proof. destruct u; reflexivity. Qed.
+
+Lemma F1_paramO name u key o v fs :
+  wf_pname name = true -> wf_unq key = true -> FRlemma (Some o) v -> Flemma fs ->
+  F1lemma (ParamO name u (FCons (Field Unq key (Some o) v) fs)).
+Proof.
+  intros Hn Hkey HFR HF g i more T p Hg Hsep Hctx.
+  assert (Hd : render_toks g (toks_field (ParamO name u (FCons (Field Unq key (Some o) v) fs)) ++ more) i =
+               g i ++ pname_bytes u name ++ render_toks g (toks_fields (FCons (Field Unq key (Some o) v) fs) ++ rbracket :: more) (S i)).
+  { cbn [toks_field app]. rewrite render_toks_cons. cbn [fst]. rewrite <- app_assoc. reflexivity. }
+  apply (PO_run name u key o v fs Hn Hkey HFR HF g i more T p SKey _ Hg Hsep).
+  - apply fctx_push; [exact Hctx | apply param_tok_not_cont].
+  - rewrite Hd. apply step_key_pname. apply Hg.
+  - rewrite Hd. unfold meas. cbn [pdata pst_ phi]. rewrite !app_length. lia.
+Qed.
+
+Lemma OH_paramV name u s fs : wf_pname name = true -> wf_unq s = true -> Flemma fs -> OHlemma (FCons (ParamV name u s) fs).
+Proof.
+  intros Hn Hs HF g i more T p Hg Hsep HT.
+  cbn [toks_fields] in *. rewrite <- ?app_assoc in *.
+  assert (Hd : render_toks g (toks_field (ParamV name u s) ++ toks_fields fs ++ more) i =
+               g i ++ pname_bytes u name ++ render_toks g (((s, true) : rtok) :: rbracket :: toks_fields fs ++ more) (S i)).
+  { cbn [toks_field app]. rewrite render_toks_cons. reflexivity. }
+  eapply reaches_trans.
+  { apply (PV_run name u s Hn Hs g i (toks_fields fs ++ more) (T ++ [TObject p false]) (length T) SOpen _ Hg Hsep).
+    - rewrite Hd. apply step_open_pname. apply Hg.
+    - rewrite Hd. unfold meas. cbn [pdata pst_ phi]. rewrite !app_length. lia. }
+  apply sep_ok_app in Hsep.
+  eapply reaches_eq.
+  { apply (HF g _ more _ (length T) Hg Hsep). right. right. exists p. rewrite <- app_assoc. cbn [app]. apply nth_error_mid. }
+  cbn [toks_field flat_fields flat_field length]. rewrite !app_length. cbn [length]. tape_eq.
+Qed.
+
+Lemma OH_paramO name u key o v pfs fs :
+  wf_pname name = true -> wf_unq key = true -> FRlemma (Some o) v -> Flemma pfs -> Flemma fs ->
+  OHlemma (FCons (ParamO name u (FCons (Field Unq key (Some o) v) pfs)) fs).
+Proof.
+  intros Hn Hkey HFR HFp HF g i more T p Hg Hsep HT.
+  cbn [toks_fields] in *. rewrite <- ?app_assoc in *.
+  assert (Hd : render_toks g (toks_field (ParamO name u (FCons (Field Unq key (Some o) v) pfs)) ++ toks_fields fs ++ more) i =
+               g i ++ pname_bytes u name ++
+               render_toks g (toks_fields (FCons (Field Unq key (Some o) v) pfs) ++ rbracket :: toks_fields fs ++ more) (S i)).
+  { cbn [toks_field app]. rewrite render_toks_cons. cbn [fst]. rewrite <- app_assoc. reflexivity. }
+  eapply reaches_trans.
+  { apply (PO_run name u key o v pfs Hn Hkey HFR HFp g i (toks_fields fs ++ more) (T ++ [TObject p false]) (length T) SOpen _ Hg Hsep).
+    - right. exists p. rewrite <- app_assoc. cbn [app]. apply nth_error_mid.
+    - rewrite Hd. apply step_open_pname. apply Hg.
+    - rewrite Hd. unfold meas. cbn [pdata pst_ phi]. rewrite !app_length. lia. }
+  apply sep_ok_app in Hsep.
+  eapply reaches_eq.
+  { apply (HF g _ more _ (length T) Hg Hsep). right. right. exists p. rewrite <- app_assoc. cbn [app]. apply nth_error_mid. }
+  cbn [flat_fields]. rewrite !app_length. cbn [length]. tape_eq.
+Qed.
+
+(* ------------------------------------------------------------------ stage 4: the whole grammar *)
+Definition Fparts (f : field) : Prop :=
+  match f with
+  | Field _ _ op v => FRlemma op v
+  | ParamO _ _ (FCons (Field _ _ op v) pfs') => FRlemma op v /\ Flemma pfs'
+  | _ => True
+  end.
+Definition Qv (v : value) : Prop :=
+  wf_value v = true ->
+  forall c, ((c = CArr -> is_header v = false) -> Vlemma c v) /\ (is_container v = true -> Blemma c v).
+Definition Qf (f : field) : Prop := wf_field f = true -> F1lemma f /\ Fparts f.
+Definition Qfs (fs : fields) : Prop :=
+  wf_fields fs = true ->
+  Flemma fs /\ match fs with FCons f fs' => Fparts f /\ Flemma fs' | FNil => True end.
+Definition Qvs (vs : values) : Prop :=
+  wf_items vs = true ->
+  Ilemma vs /\ match vs with VCons _ vs' => Ilemma vs' | VNil => True end.
+
+Lemma full_all :
+  (forall v, Qv v) /\ (forall f, Qf f) /\ (forall fs, Qfs fs) /\ (forall vs, Qvs vs).
+Proof.
+  apply doc_mutind.
+  - (* scalar *)
+    intros k s Hwf c. split; [intros _; apply V_scalar; exact Hwf | discriminate].
+  - (* object *)
+    intros fs IHfs tlv IHtl Hwf c. cbn [wf_value] in Hwf. andb_split.
+    assert (HB : Blemma c (VObject fs tlv)).
+    { apply B_object_gen.
+      - destruct (IHfs ltac:(assumption)) as [_ Hparts].
+        destruct fs as [|f fs']; [discriminate|]. destruct Hparts as [Hparts HF'].
+        cbn [wf_fields] in *. andb_split.
+        destruct f as [k key op v|name u s|name u pfs]; cbn [first_field_ok wf_field Fparts] in *; andb_split.
+        + destruct op as [o|]; [|discriminate]. apply OH_field; assumption.
+        + apply OH_paramV; assumption.
+        + destruct pfs as [|pf pfs']; [discriminate|]. destruct pf as [k key op v| |]; try discriminate.
+          destruct k; [|discriminate]. destruct op as [o|]; [|discriminate].
+          destruct Hparts as [HFR HFp]. cbn [wf_fields wf_field wf_scalar] in *. andb_split.
+          apply OH_paramO; assumption.
+      - destruct tlv as [|v tl']; [apply OE_nil|].
+        cbn [wf_tail] in *. andb_split. destruct v as [k s| | | |]; try discriminate.
+        apply OE_tail; assumption. }
+    split; [intros _; apply V_of_B; [reflexivity | exact HB] | intros _; exact HB].
+  - (* array *)
+    intros items IH Hwf c. cbn [wf_value] in Hwf. andb_split.
+    assert (HB : Blemma c (VArray items)).
+    { destruct (IH ltac:(assumption)) as [HI Hparts].
+      destruct items as [|v vs]; [apply B_array_nil|].
+      cbn [wf_items] in *. andb_split.
+      destruct v as [k s| | | |]; try discriminate.
+      - apply B_array_scalar; assumption.
+      - apply B_array_cont; auto.
+      - apply B_array_cont; auto. destruct items; [discriminate | reflexivity].
+      - apply B_array_cont; auto. }
+    split; [intros _; apply V_of_B; [reflexivity | exact HB] | intros _; exact HB].
+  - (* array -> key-value list *)
+    intros items IH kvs _ Hwf c. cbn [wf_value] in Hwf. andb_split.
+    assert (HB : Blemma c (VArrayKv items kvs)).
+    { destruct (IH ltac:(assumption)) as [_ Hparts].
+      destruct items as [|v vs]; [discriminate|]. destruct v as [k s| | | |]; try discriminate.
+      cbn [wf_items wf_value] in *. andb_split.
+      apply B_arraykv; assumption. }
+    split; [intros _; apply V_of_B; [reflexivity | exact HB] | intros _; exact HB].
+  - (* header *)
+    intros name v IH Hwf c. cbn [wf_value] in Hwf. andb_split.
+    split; [|discriminate]. intros Hc. destruct c; [|specialize (Hc eq_refl); discriminate].
+    apply V_header; try assumption.
+    + match goal with H : negb _ = true |- _ => apply Bool.negb_true_iff in H; exact H end.
+    + apply (IH ltac:(assumption) CObj). assumption.
+  - (* field *)
+    intros k key op v IH Hwf. cbn [wf_field] in Hwf. andb_split.
+    assert (HFR : FRlemma op v).
+    { apply FR_of_V; [assumption | | apply (IH ltac:(assumption) CObj); discriminate].
+      intros ->. assumption. }
+    split; [apply F1_field; assumption | exact HFR].
+  - (* [[name] value ] *)
+    intros name u s Hwf. cbn [wf_field] in Hwf. andb_split. split; [apply F1_paramV; assumption | exact I].
+  - (* [[name] fields ] *)
+    intros name u pfs IH Hwf. cbn [wf_field] in Hwf. andb_split.
+    destruct (IH ltac:(assumption)) as [_ Hparts].
+    destruct pfs as [|pf pfs']; [discriminate|]. destruct pf as [k key op v| |]; try discriminate.
+    destruct k; [|discriminate]. destruct op as [o|]; [|discriminate].
+    destruct Hparts as [HFR HFp]. cbn [Fparts] in HFR. cbn [wf_fields wf_field wf_scalar] in *. andb_split.
+    split; [apply F1_paramO; assumption | split; assumption].
+  - (* no field *)
+    intros _. split; [apply F_nil | exact I].
+  - (* fields *)
+    intros f IHf fs IHfs Hwf. cbn [wf_fields] in Hwf. andb_split.
+    destruct (IHf ltac:(assumption)) as [HF1 Hparts].
+    destruct (IHfs ltac:(assumption)) as [HF _].
+    split; [|split; assumption].
+    apply F_cons; try assumption. destruct f as [k key op v|name u s|name u pfs].
+    + exists (scalar_tok k key), (fun off => op_toks false op ++ flat_value (S off + length (op_toks false op)) v).
+      intros off. split; [reflexivity | destruct k; reflexivity].
+    + exists (param_tok u name), (fun _ => [TUnquoted s]). intros off. split; [reflexivity | apply param_tok_not_cont].
+    + eexists (param_tok u name), (fun off => _). intros off. split; [reflexivity | apply param_tok_not_cont].
+  - intros _. split; [apply I_nil | exact I].
+  - (* items *)
+    intros v IHv vs IHvs Hwf. cbn [wf_items] in Hwf. andb_split.
+    destruct (IHvs ltac:(assumption)) as [HI _].
+    split; [|exact HI].
+    apply I_cons; [|exact HI].
+    apply (IHv ltac:(assumption) CArr). intros _.
+    match goal with H : negb _ = true |- _ => apply Bool.negb_true_iff in H; exact H end.
+Qed.
+
+Theorem parse_render : forall d l,
+  wf_doc d -> wf_layout d l -> parse (render d l) = Ok (flatten d, bom l).
+Proof.
+  intros d l Hwf Hl. eapply parse_of_reaches; [exact Hl|].
+  destruct Hl as (Hg & Hsep & _).
+  destruct (proj1 (proj2 (proj2 full_all)) d Hwf) as [HF _].
+  specialize (HF (gap l) 0 [] [] 0 Hg). rewrite !app_nil_r in HF.
+  apply HF; [exact Hsep | left; split; reflexivity].
+Qed.
+
+Corollary layout_independent : forall d l1 l2,
+  wf_doc d -> wf_layout d l1 -> wf_layout d l2 ->
+  omap fst (parse (render d l1)) = omap fst (parse (render d l2)).
+Proof. intros d l1 l2 Hwf H1 H2. rewrite !parse_render by assumption. reflexivity. Qed.
+
+(* ------------------------------------------------------------------ left padding *)
+Lemma gap_ok_app a b : gap_ok a -> gap_ok b -> gap_ok (a ++ b).
+Proof.
+  intros Ha Hb. induction Ha; cbn [app]; [exact Hb | constructor; assumption |].
+  rewrite <- app_assoc. cbn [app]. apply gap_comment; assumption.
+Qed.
+
+Lemma render_toks_ext g g' ts : forall i, (forall j, i <= j -> g j = g' j) -> render_toks g ts i = render_toks g' ts i.
+Proof.
+  induction ts as [|t ts IH]; intros i H; cbn [render_toks].
+  - apply H. lia.
+  - rewrite (H i) by lia. rewrite (IH (S i)); [reflexivity|]. intros j Hj. apply H. lia.
+Qed.
+
+Lemma sep_ok_ext g g' ts : forall i, (forall j, i < j -> g j = g' j) -> sep_ok g ts i -> sep_ok g' ts i.
+Proof.
+  induction ts as [|t ts IH]; intros i H; cbn [sep_ok]; [auto|].
+  intros [H1 H2]. split.
+  - intros Ht. rewrite <- (render_toks_ext g g' ts (S i)); [auto|]. intros j Hj. apply H. lia.
+  - apply IH; [|exact H2]. intros j Hj. apply H. lia.
+Qed.
+
+Lemma gap_hd_not_bom g rest : gap_ok g -> g <> [] -> has_bom (g ++ rest) = false.
+Proof.
+  intros Hg Hne. destruct Hg as [|c g Hc Hg|body g Hb Hg]; [congruence| |reflexivity].
+  cbn [app]. unfold is_ws_t, beq in Hc.
+  destruct (N.eqb_spec c 32) as [->|?]; [reflexivity|].
+  destruct (N.eqb_spec c 9) as [->|?]; [reflexivity|].
+  destruct (N.eqb_spec c 10) as [->|?]; [reflexivity|].
+  destruct (N.eqb_spec c 13) as [->|?]; [reflexivity|].
+  destruct (N.eqb_spec c 59) as [->|?]; [reflexivity|]. discriminate.
+Qed.
+
+Lemma wf_layout_pad d l pad : wf_layout d l -> gap_ok pad -> wf_layout d (with_pad pad l).
+Proof.
+  intros (Hg & Hsep & Hbom) Hpad. split; [|split].
+  - intros i. cbn [with_pad gap]. destruct (Nat.eqb i 0); [apply gap_ok_app; [exact Hpad | apply Hg] | apply Hg].
+  - cbn [with_pad gap]. eapply sep_ok_ext; [|exact Hsep]. intros j Hj. cbn.
+    destruct (Nat.eqb_spec j 0); [lia | reflexivity].
+  - cbn [with_pad bom]. intros Hb. specialize (Hbom Hb). unfold render in *. cbn [with_pad bom gap] in *. rewrite Hb in *.
+    cbn [app] in *.
+    destruct pad as [|c pad'].
+    + erewrite render_toks_ext; [exact Hbom|]. intros j _. cbn. destruct (Nat.eqb j 0) eqn:E; [apply Nat.eqb_eq in E; subst|]; reflexivity.
+    + destruct (toks_fields d) as [|t ts]; cbn [render_toks Nat.eqb]; rewrite <- ?app_assoc;
+        apply gap_hd_not_bom; (exact Hpad || discriminate).
+Qed.
+
+Theorem padding_independent : forall d l pad,
+  wf_doc d -> wf_layout d l -> gap_ok pad ->
+  parse (render d (with_pad pad l)) = parse (render d l).
+Proof.
+  intros d l pad Hwf Hl Hpad. rewrite !parse_render; auto. apply wf_layout_pad; assumption.
+Qed.
